@@ -687,6 +687,27 @@ func (r *runner) apply(ev string) bool {
 				r.record(f[1], p.DB(f[1]).Pos(), res.Intended)
 			}
 		}
+	case "fromwal":
+		// PRAGMA journal_mode=DELETE on a WAL database: checkpoint, unlink the log, page 1 through a rollback journal
+		if p := r.c.Primary(); p != nil {
+			cur, ok := r.current(p, f[1])
+			if ok && cur.N() > 0 && isWAL(cur) {
+				conn := pager.NewConn(p.M, f[1], r.nextOwner(), cur.PageSize)
+				conn.Det = true
+				err := conn.LeaveWAL()
+				var res pager.RTxResult
+				if err == nil {
+					res = conn.RunRTx(pager.RTx{FromWAL: true, Final: "DELETE", Outcome: "commit"}, cur)
+					err = res.Err
+				}
+				conn.Close()
+				if err != nil || !res.Committed {
+					r.viol("C01/fromwal-failed", "switching %q back to a rollback journal failed at %q: %v", f[1], res.ErrStep, err)
+					return false
+				}
+				r.record(f[1], p.DB(f[1]).Pos(), res.Intended)
+			}
+		}
 	case "import":
 		if p := r.c.Primary(); p != nil {
 			return r.importDB(p, f[1], f[2])
@@ -1093,11 +1114,13 @@ func (r *runner) readerCheck(n *lab.Node, db, ev string) {
 	// SQLite's first opener does. An application that has been connected all along trusts the index it finds - the
 	// one LiteFS publishes after every apply. In WAL mode the same read is made through such a connection too.
 	key := n.Cfg.Name + "/" + db
-	if k := r.keep[key]; k != nil && (!wal || k.m != n.M) {
+	if k := r.keep[key]; k != nil && k.m != n.M {
 		k.c.Close()
 		delete(r.keep, key)
 	}
 	if !wal {
+		// (the connection stays attached while the database is in a rollback mode - an idle application does not
+		// notice - so that after a switch back the next opener is not the first and trusts the index again)
 		return
 	}
 	k := r.keep[key]
@@ -1223,6 +1246,9 @@ func (r *runner) enabled() []string {
 		}
 		if has("towal") && !isWAL(cur) {
 			out = append(out, "towal:"+db)
+		}
+		if has("fromwal") && isWAL(cur) && cur.N() > 0 {
+			out = append(out, "fromwal:"+db)
 		}
 		if db == "a" {
 			for _, k := range []string{"s", "b", "w"} {
